@@ -490,3 +490,22 @@ func ReadFile(path string) (*FileDump, error) {
 	sort.Strings(d.UserTables)
 	return d, nil
 }
+
+// MarkerTable is the table AddMarker adds to a pre-existing file.
+const MarkerTable = "verif_marker_of_the_pre_existing_file"
+
+// AddMarker adds a table to an existing SQLite file: if that table is still there after a
+// run that had to replace the file, content of the old file has survived.
+func AddMarker(path string) error {
+	db, err := sql.Open("sqlite3", path)
+	if err != nil {
+		return err
+	}
+	defer db.Close()
+	if _, err := db.Exec(`CREATE TABLE IF NOT EXISTS "` + MarkerTable + `" (x TEXT)`); err != nil {
+		return err
+	}
+	_, err = db.Exec(`INSERT INTO "` + MarkerTable + `" VALUES ('written before the run')`)
+	return err
+}
+
